@@ -455,6 +455,8 @@ def _script(r, client, world, counter):
                 add(r.choice(["ld.undictify_flat", "ld.dictify_flat"]), {"doc": P(r.choice(["ndoc0", "doc0"]))})
             elif k == "undictify_all":
                 add("ld.undictify_all", {"doc": P("ndoc0")})
+                if r.random() < 0.6:
+                    add("ld.undictify_all", {"doc": P("ndoc0")})      # the same object again (also after a failed conversion)
             else:
                 add("ld.dictify_all", {"doc": P("doc0")})
         elif g == "reent":
